@@ -608,6 +608,25 @@ pub const GO_BUDGETED: &[(&str, Option<u64>)] = &[
     ("go wtime 30000 btime 30000 winc 500 binc 500 movestogo 20", None),
 ];
 
+/// The same limits in the other order, and clocks combined with each of the other limiting tokens
+/// before and after them: whichever token comes last must not switch the clock off. Single
+/// commands on a fresh engine (every position).
+pub const GO_BUDGETED_ORDERS: &[(&str, Option<u64>)] = &[
+    ("go movetime 60 depth 40", Some(60)),
+    ("go movetime 45 mate 5", Some(45)),
+    ("go movetime 35 movestogo 10", Some(35)),
+    ("go movetime 25 depth 64", Some(25)),
+    ("go depth 64 movetime 25", Some(25)),
+    ("go wtime 6000 btime 6000 winc 0 binc 0 depth 40", None),
+    ("go depth 40 wtime 6000 btime 6000 winc 0 binc 0", None),
+    ("go wtime 6000 btime 6000 winc 0 binc 0 nodes 1000000", None),
+    ("go nodes 1000000 wtime 6000 btime 6000 winc 0 binc 0", None),
+    ("go wtime 6000 btime 6000 winc 0 binc 0 mate 5", None),
+    ("go mate 5 wtime 6000 btime 6000 winc 0 binc 0", None),
+    ("go movestogo 10 wtime 30000 btime 30000 winc 500 binc 500", None),
+    ("go wtime 9000 btime 9000 winc 100 binc 100 depth 30 nodes 1000000", None),
+];
+
 /// Only where a search of that size is cheap (not on the explosion positions' cap)
 pub const GO_LONG_BUDGET: (&str, Option<u64>) = ("go movetime 20000", Some(20000));
 
@@ -688,6 +707,11 @@ fn go_histories(rep: &Report, thorough: bool) -> (J, u64, u64) {
             hs.push(vec![(pc.clone(), None), (g.to_string(), Some(*b))]);
         }
     }
+    for (_, pc, _) in &all_positions {
+        for (g, b) in GO_BUDGETED_ORDERS {
+            hs.push(vec![(pc.clone(), None), (g.to_string(), Some(*b))]);
+        }
+    }
     let singles = hs.len();
     // two commands: any first go on a normal position, then a budgeted go on any position,
     // with and without ucinewgame in between
@@ -725,7 +749,7 @@ fn go_histories(rep: &Report, thorough: bool) -> (J, u64, u64) {
         .set("max_nodes_after_deadline", worst)
         .set("positions", all_positions.iter().map(|p| p.1.clone()).collect::<Vec<_>>())
         .set("first_commands", GO_SETTERS.iter().map(|g| g.to_string()).chain(GO_BUDGETED.iter().map(|g| g.0.to_string())).collect::<Vec<_>>())
-        .set("judged_commands", GO_BUDGETED.iter().map(|g| g.0.to_string()).chain(std::iter::once(GO_LONG_BUDGET.0.to_string())).collect::<Vec<_>>())
+        .set("judged_commands", GO_BUDGETED.iter().map(|g| g.0.to_string()).chain(std::iter::once(GO_LONG_BUDGET.0.to_string())).chain(GO_BUDGETED_ORDERS.iter().map(|g| format!("{} (single command)", g.0))).collect::<Vec<_>>())
         .set("rule", "history = position A; go a; [ucinewgame]; position B; go b on a fresh engine through the real command handler under the node clock (1 node = 1 ms); A over the normal positions, a over all first commands, B over all positions incl. the quiescence-explosion ones, b over the budgeted commands; every budgeted go must end within budget + limit nodes (budget = the movetime given, or the limit the engine itself derived from the clocks)");
     (part, judged, hits)
 }
